@@ -45,6 +45,7 @@ def main(tier, replay=None):
     # finalisers that allocate (in the middle of a sweep, and during teardown): every object is still finalised exactly once
     camp.run([], [["reset", "finalloc %d %d" % (m, k)] for (m, k) in (((40, 3), (300, 8), (300, 1)) if quick else ((10, 1), (40, 3), (300, 8), (300, 1), (3000, 5)))],
              "allocating-finalisers", sample=False)
+    camp.run([], [["reset", "heapviews"]], "heap-views-hold-inputs", sample=False)       # nothing a live heap Zip / Slice / Map holds is finalised
     camp.run([], [["reset", "donly"]], "destructor-only-type", sample=False)       # a New instance with a destructor and no constructor
     camp.run([], [["reset", "delalloc %d %d" % nk] for nk in ((6, 64), (40, 3), (300, 8))], "deleting-spawners", sample=False)
     # finalisers that release a root object they own AND allocate, all of them run by teardown: holders, resources and notes finalised once
